@@ -260,6 +260,33 @@ class Ctx:
             raise AnalysisError(msg)
 
 
+class Alias:
+    """View of a Ctx under which another property's rules are evaluated as ONE rule of this property.
+
+    Used where two properties share a structural clause (e.g. HTTP/2 wake-up pairing is a necessary
+    condition of C09 liveness, of C08 "pressure abates => send returns" and of C02 delivery)."""
+
+    def __init__(self, ctx: "Ctx", rule: str, text: str, only=None) -> None:
+        self._ctx = ctx
+        self._rule = rule
+        self._only = only
+        ctx.rule(rule, text, floor=1)
+
+    def __getattr__(self, name):
+        return getattr(self._ctx, name)
+
+    def rule(self, rid: str, text: str, floor: int = 1) -> None:
+        pass
+
+    def assume(self, text: str) -> None:
+        pass
+
+    def check(self, rule, where, construct, ok, what="", node=None, detail=None, sample=None, nontrivial=True):
+        if self._only is not None and rule not in self._only:
+            return bool(ok)
+        return self._ctx.check(self._rule, where, f"{rule}: {construct}", ok, what, node, detail, sample, nontrivial)
+
+
 # --------------------------------------------------------------------------- known findings
 
 KNOWN_PATH = VERIF / "known_findings.json"
